@@ -175,3 +175,77 @@ package cmd
 //@ func rootCmd.RunE
 //@   returns err
 //@   requires cmd != nil
+
+// ---- helper functions
+
+//@ func add
+//@   returns err
+//@   modifies Index.Entries, Index.Header, fs
+//@   requires index != nil && store.wfIndex(index)
+//@   ensures [wf] {C04,C06} store.wfIndex(index)
+
+//@ func removeFromWorkingTree
+//@   returns err
+//@   modifies fs
+//@   ensures [only] {C04} sameExcept(fs, old(fs), path)
+//@   ensures [removed] {C04} err == nil ==> isAbsent(fs, path) || fs == old(fs)
+
+//@ func isCommitNecessary
+//@   returns necessary, err
+//@   modifies $rdpos, $hashdata
+//@   requires index != nil && store.wfIndex(index) && commitObj != nil && len(commitObj.Tree) >= 1
+
+//@ func resetHead
+//@   returns err
+//@   modifies Head.Commit, branch.hash, fs, $rdpos, $hashdata, $screst, $sctok
+//@   requires logRecord != nil && len(logRecord.Hash) >= 20 && head != nil && head.Commit != nil && head.Commit.Object != nil && refs != nil && store.wfRefs(refs) && conf != nil && gLogger != nil
+//@   ensures [wf] store.wfRefs(refs)
+//@   ensures [head-same] {C08} head.Reference == old(head.Reference)
+
+//@ func resetIndex
+//@   returns err
+//@   modifies Index.Entries, Index.Header, fs, $rdpos, $hashdata, $screst, $sctok
+//@   requires logRecord != nil && len(logRecord.Hash) >= 1 && index != nil && store.wfIndex(index)
+//@   ensures [disk-only] {C08} sameExcept(fs, old(fs), store.indexPath(rootGoitPath))
+
+//@ func resetWorkingTree
+//@   returns err
+//@   modifies fs, $rdpos, $hashdata
+//@   requires index != nil && (forall i int :: 0 <= i && i < len(index.Entries) ==> index.Entries[i] != nil && len(index.Entries[i].Hash) >= 1)
+
+//@ func restoreIndex
+//@   returns err
+//@   modifies Index.Entries, Index.Header, fs
+//@   requires index != nil && store.wfIndex(index) && tree != nil && object.treeWF(tree.Children) && len(path) <= 65535
+//@   ensures [wf] {C09} store.wfIndex(index)
+//@   ensures [disk-only] {C09} sameExcept(fs, old(fs), store.indexPath(rootGoitPath))
+
+//@ func restoreWorkingDirectory
+//@   returns err
+//@   modifies fs, $rdpos, $hashdata
+//@   requires index != nil && store.wfIndex(index)
+
+//@ func revParse
+//@   returns err
+//@   modifies $out
+//@   requires head != nil
+
+//@ func writeTreeObject
+//@   returns o, err
+//@   modifies fs
+//@   requires forall i int :: 0 <= i && i < len(entries) ==> entries[i] != nil
+//@   decreases len(entries)
+//@   ensures [result] err == nil ==> o != nil && len(o.Hash) == 20
+//@   ensures [nil] err != nil ==> o == nil
+
+//@ func commit
+//@   returns err
+//@   modifies Refs.Heads, branch.hash, Head.Reference, Head.Commit, fs, $rdpos, $hashdata, $screst, $sctok
+//@   requires index != nil && store.wfIndex(index) && head != nil && conf != nil && refs != nil && store.wfRefs(refs) && gLogger != nil
+//@   requires (head.Commit != nil ==> head.Commit.Object != nil)
+//@   requires (head.Commit == nil ==> forall i int :: 0 <= i && i < len(refs.Heads) ==> refs.Heads[i].Name != head.Reference)
+
+//@ func walkHistory
+//@   returns err
+//@   modifies *
+//@   requires len(hash) >= 1
